@@ -34,6 +34,8 @@ THEOREMS = [
     "C07_load_in_place_orphans",
     "C07_refused_connection_unloadable",
     "C07_roundtrip_file_own",
+    "C07_executor_instructions",
+    "C07_narrow_strip_loses_instructions",
     "C07_rerun_dag",
     "C07_rerun_store",
 ]
